@@ -59,4 +59,25 @@ ENGINES += [
     {"name": "auditable", "path": "spec/Auditable.tla spec/TraceAuditable.tla harness/rvf/aud_replay.py", "serves_properties": ["C18"], "kind_free_text": "TLA+ log-discipline model + trace validation"},
     {"name": "collection", "path": "spec/Collection.tla spec/TraceCollection.tla harness/rvf/coll_replay.py", "serves_properties": ["C19"], "kind_free_text": "TLA+ transcription of collection.py + trace validation"},
 ]
+_TQ = "TLA+ transcription of the W3C semantics (Sparql.tla / SparqlPaths.tla / SparqlUpdate.tla) + TLC-checked laws guarding the transcription + TLC validation of every recorded answer of rdflib (trace spec), known findings as named deviation models"
+_NQ = _NOTE_COMMON + " The oracle is my transcription of the recommendation; it is guarded by algebraic laws and a declarative twin checked by TLC. Query / request spaces are enumerated by a Python grammar enumerator; TLC decides every case."
+CHECKS.update({
+    "C04": {"engine": "sparql", "technique": _TQ, "note": _NQ,
+            "level": ("TLC checks 10 algebra laws over 8281 operand pairs and the BGP declarative twin over 4096 cases; 1400+ systematically enumerated group patterns {A op B} (Join, OPTIONAL(+FILTER), UNION, MINUS, EXISTS, scopes, sub-SELECT, BIND, VALUES, GRAPH) "
+                      "x data graphs / datasets x forms (SELECT, SELECT DISTINCT vars, ASK) plus seeded random queries of depth <= 3 incl. CONSTRUCT are run on rdflib and every answer is validated by TLC as a multiset against the transcribed semantics.")},
+    "C08": {"engine": "sparql", "technique": _TQ, "note": _NQ,
+            "level": ("Every combination of DISTINCT/REDUCED x 10 ORDER BY key lists x projections x 8 LIMIT/OFFSET settings over 6 patterns, and 18 aggregates x 4 groupings x HAVING, over 4 data graphs; TLC validates each answer with the predicates "
+                      "OrderedOK / SliceOK / ReducedOK / AggOK (exact where SPARQL is exact, permissive where it leaves freedom).")},
+    "C10": {"engine": "sparql", "technique": _TQ, "note": _NQ,
+            "level": ("TLC checks graph-management and delete-before-insert laws on SparqlUpdate.tla; 70 request shapes x 70 datasets x Dataset / ConjunctiveGraph / Graph x union switch are applied through rdflib and the resulting quads are validated by TLC "
+                      "against the prescribed dataset up to the identity of freshly minted blank nodes.")},
+    "C11": {"engine": "sparql", "technique": _TQ, "note": _NQ,
+            "level": ("TLC checks path laws and fixed-point = walk closure on all 26 depth-1 paths x 172 graphs; those 4472 cases, all 9 nested-modifier forms and a sample (all in thorough) of 1272 depth-2 paths over 7 named graph families are evaluated "
+                      "through Graph.triples / subjects / objects and SPARQL with 12 bindings of the ends (incl. absent and falsy terms) and validated by TLC as relations (plus duplicate-freeness for closures).")},
+    "C15": {"engine": "sparql", "technique": _TQ, "note": _NQ,
+            "level": ("Each pool query and 5 kinds of rewrites, initBindings vs trailing VALUES, prepared-query histories (re-runs after mutation, on other graphs, interleaved consumption of two result iterators) and four store back ends are validated by TLC "
+                      "against one stateless semantics: any dependence on spelling, preparation state or store shows as a rejected run.")},
+})
+ENGINES += [{"name": "sparql", "path": "spec/Sparql.tla spec/SparqlPaths.tla spec/SparqlUpdate.tla spec/TraceQuery.tla spec/TraceUpdate.tla spec/MCSparql*.tla harness/rvf/sparql_replay.py harness/rvf/update_replay.py harness/rvf/qgen.py",
+             "serves_properties": ["C04", "C08", "C10", "C11", "C15"], "kind_free_text": "W3C SPARQL semantics transcribed to TLA+; TLC as the evaluator judging rdflib's answers"}]
 NOT_BUILT: dict = {}
